@@ -631,6 +631,14 @@ def parse_equation(equation: str) -> List[Symbol]:
     pieces.append(escape_braces(equation[position:]))
     template = ''.join(pieces)
 
+    # Error if the placeholders (one per term of the statement as a whole) do
+    # not line up with the terms (found separately on either side of the first
+    # '='), e.g. because a backticked fragment spans that '='
+    if len(pieces) // 2 != len(terms):
+        raise ParserError(
+            f"Unable to separate the left- and right-hand sides of: '{equation}'"
+        )
+
     # fmt: off
     template = re.sub(r'\s+',   ' ', template)  # Remove repeated whitespace
     template = re.sub(r'\(\s+', '(', template)  # Remove space after opening brackets
